@@ -346,7 +346,8 @@ func crCases(c *core.Ctx) ([]json.RawMessage, error) {
 	{
 		depths := []int{100, 1000, 10000}
 		if c.Thorough() {
-			depths = append(depths, 100000, 1000000)
+			// (Example() of n nested containers copies the inner text once per level: 6 s at 10^5, an hour at 10^6)
+			depths = append(depths, 100000)
 		}
 		for _, d := range depths {
 			arr := strings.Repeat("[", d) + strings.Repeat("]", d)
